@@ -334,7 +334,7 @@ func func_First(rtParams FunctionParameterTypes, val any) (any, error) {
 	}
 
 	v := reflect.ValueOf(val)
-	if isEmptyValue(v) {
+	if isEmptyValue(v) && v.Kind() != reflect.Slice && v.Kind() != reflect.Array {
 		return decimal.Zero, nil
 	}
 
@@ -363,7 +363,7 @@ func func_Last(rtParams FunctionParameterTypes, val any) (any, error) {
 	}
 
 	v := reflect.ValueOf(val)
-	if isEmptyValue(v) {
+	if isEmptyValue(v) && v.Kind() != reflect.Slice && v.Kind() != reflect.Array {
 		return decimal.Zero, nil
 	}
 
@@ -393,7 +393,7 @@ func func_Index(rtParams FunctionParameterTypes, val any) (any, error) {
 	}
 
 	v := reflect.ValueOf(val)
-	if isEmptyValue(v) {
+	if isEmptyValue(v) && v.Kind() != reflect.Slice && v.Kind() != reflect.Array {
 		return decimal.Zero, nil
 	}
 
@@ -404,7 +404,7 @@ func func_Index(rtParams FunctionParameterTypes, val any) (any, error) {
 
 	switch v.Kind() {
 	case reflect.Slice, reflect.Array:
-		if v.Len()-1 >= int(param.IntPart()) {
+		if !param.IsNegative() && param.LessThan(decimal.NewFromInt(int64(v.Len()))) {
 			return convertToDecimalIfNumber(v.Index(int(param.IntPart())).Interface()), nil
 		} else {
 			return nil, fmt.Errorf("nothing in array")
